@@ -241,6 +241,8 @@ def base_universe():
          ['dt', '2020-01-01T00:00:00'], ['dt', '2020-01-02T00:00:00'], ['ts', '2020-01-01'], ['dt64', '2020-01-01'], ['date', '2020-01-01'],
          ['np', 'float64', 1.0], ['np', 'float64', 'nan'], ['np', 'float32', 'nan'], ['np', 'float32', 1.0], ['np', 'int64', 1], ['np', 'int64', 0], ['np', 'bool_', True],
          ['f', 'inf'], ['f', '-inf'], ['np', 'float64', 'inf'], A('float', [1.0, 'inf']), L(['f', 'inf']), L(['f', '-inf']), Dd(a=['f', 'inf']),
+         # floats that differ by less than any tolerance one might use for "closeness": equal only when every cell matches exactly
+         ['f', 1.000001], ['f', 1e-9], A('float', [1.0, 2.000001]), A('float', [1e-9, 2.0]), A('float', [0.0, 2.0]), L(['f', 1.000001]), ['series', 'float', [1.0, 2.000001], None],
          L(), T(), Dd(), Dd('Dict'), A('float', []), A('int', [1]), A('float', [1.0]), A('int', [1, 2]), A('float', [1.0, 2.0]), A('int', [2, 1]),
          A('float', [1.0, 'nan']), A('float32', [1.0, 'nan']), A('int', [[1, 2]]), A('int', [[1], [2]]), A('int', [[1, 2], [3, 4]]), A('int', [[1, 2], [3, 5]]),
          A('int', [[1], [1]]), A('int', [[1, 1], [1, 1]]), A('int', [[1]]), A('str', ['a']), A('str', ['a', 'b']), A('bool', [True]),
